@@ -29,4 +29,5 @@ let () = iter_lines (fun l ->
   | ["apsep"; a; b; c; d] -> pr [ap_separation numf (fl a) (fl b) (fl c) (fl d)]
   | ["appa"; a; b; c; d] -> pr [ap_position_angle numf (fl a) (fl b) (fl c) (fl d)]
   | ["apoff"; a; b; c; d] -> let (lo, la) = ap_offset_by numf (fl a) (fl b) (fl c) (fl d) in pr [lo; la]
+  | ["spdfpd"; sr; sd; r; d; sg] -> pr [signalpdf_pd numf (fl sr) (fl sd) (fl r) (fl d) (fl sg)]
   | _ -> print_endline "ERR")
